@@ -357,3 +357,9 @@ pub proof fn lemma_content_final(old0: Seq<Ins>, im: Seq<usize>, optb: Seq<Ins>,
     }
 }
 
+/// the instruction is a call of the function of that name
+pub open spec fn calls_fn(i: Instruction, name: Seq<char>) -> bool {
+    match i { Instruction::CallFunction(s) => s@ == name, _ => false }
+}
+#[verifier::external_body]
+pub fn vx_str_eq_ref(a: &String, b: &str) -> (r: bool) ensures r == (a@ == b@) { unimplemented!() }
